@@ -485,6 +485,53 @@ pub fn c01(c: &mut Ctx) {
             c.count("linear_grid_points");
         }
     }
+    // (a'') results in the lowest binades (high word in [2^-1022, 2^-969]: the low word is subnormal or
+    //       underflows), where a missing renormalisation shows up as a half-ulp tie next to an odd high word
+    let nt = c.budget(6_000_000, 600_000_000);
+    for i in 0..nt {
+        let u = (c.rng.next() >> 11) as f64 * pow2(-53);
+        match i % 6 {
+            0 | 1 => {
+                let x = -1022.0 + 54.0 * u;
+                let (h, l, _) = tf_with_hi(&mut c.rng, x);
+                run_un(c, 14, (h, l)); // exp2
+            }
+            2 => {
+                let x = -708.3 + 37.0 * u;
+                let (h, l, _) = tf_with_hi(&mut c.rng, x);
+                run_un(c, 13, (h, l)); // exp
+            }
+            3 => {
+                // products / quotients landing there
+                let a = tf_in(&mut c.rng, -1000, -400);
+                let eb = (-1022 + (54.0 * u) as i64) - exp_of(a.0);
+                if (-1000..1000).contains(&eb) {
+                    let b = tf_in(&mut c.rng, eb, eb);
+                    run_bin(c, 2, a, b);
+                    run_bin(c, 7, a, b);
+                    run_mix(c, 2, a, b.0);
+                    run_mix(c, 12, a, b.0);
+                }
+            }
+            4 => {
+                let a = tf_in(&mut c.rng, -1000, -960);
+                let f = pow2(c.rng.range(1, 60));
+                run_mix(c, 3, a, f);
+                run_mix(c, 13, a, f);
+                let b = tf_in(&mut c.rng, 1, 60);
+                run_bin(c, 3, a, b);
+                run_bin(c, 8, a, b);
+            }
+            _ => {
+                let a = tf_in(&mut c.rng, -1000, -990);
+                let b = tf_in(&mut c.rng, -1000, -990);
+                run_bin(c, 15, a, b); // hypot
+                run_bin(c, 0, a, b);
+                run_bin(c, 1, a, (a.0, -a.1));
+            }
+        }
+    }
+    c.count("tiny_result_sweep_done");
     // (b) the program VM
     let progs = c.budget(80_000, 4_000_000);
     let mut max_depth = 0u64;
